@@ -118,3 +118,9 @@ def run_api(ck, programs, tag, in_scope, per_program_timeout=60, extra_classify=
     ck.cov["evaluations"] += njudged
     return trace, v, other
 REASON_PROP["a refused call wrote to the file"] = "C13"
+for _r in ("conversion without any UTC entry succeeded", "conversion failed although UTC entries exist",
+           "single-entry conversion is off the nominal sample rate", "conversion does not reproduce a stored pair",
+           "conversion is more than one unit off the linear interpolation", "conversion is not monotone",
+           "time -> sample id is not the inverse of sample id -> time within one sample"):
+    REASON_PROP[_r] = "C12"
+REASON_PROP["conversion on an undefined or non-FSR signal"] = "C10"
